@@ -24,9 +24,9 @@ using namespace sim;
 namespace sim { void setProcessorCount(int n); }
 
 enum Code { T_CREATE = 1, T_REMOVE, L_LISTEN, L_REMOVE, E_ADDR, E_HOST, E_REMOVE, C_PAIR, C_REMOVE, C_WRITE, C_SUSPEND, C_RESUME, S_INTERRUPT, S_WAIT, S_ACCEPTPOLICY, S_QUIET,
-            R_CONNECT, R_LISTEN, R_STALL, I_INTERRUPT, I_STALL, CODE_N };
+            R_CONNECT, R_LISTEN, R_STALL, I_INTERRUPT, I_STALL, C_CLOSEFAR, C_WRITEALL, CODE_N };
 static const char* codeName[] = {"?", "timer.create", "timer.remove", "listen", "listener.remove", "connect.addr", "connect.host", "establisher.remove", "pair", "client.remove", "client.write", "client.suspend", "client.resume",
-  "interrupt(self)", "wait", "accept.policy", "quiet_period", "remote.connect", "remote.listen", "remote.stall", "interrupter.interrupt", "interrupter.stall"};
+  "interrupt(self)", "wait", "accept.policy", "quiet_period", "remote.connect", "remote.listen", "remote.stall", "interrupter.interrupt", "interrupter.stall", "client.peer_closes", "client.write_all"};
 static const char* opName(int c) { return (c > 0 && c < CODE_N) ? codeName[c] : "?"; }
 
 enum Kind { K_TIMER, K_LISTENER, K_ESTAB, K_CLIENT, K_DRIVER };
@@ -174,6 +174,10 @@ void ClientCb::onClosed() {
   checkLive(e, "onClosed");
   if (!e->failedIO && !simnet::peerClosed(e->fd)) fail("C14/closed_without_failure", "client #%d got onClosed although no read/write failed and its peer is open", e->id);
   e->closedCb = true;
+  runPending(e);          /* removals and other operations also happen from inside onClosed */
+  if (e->removed) return;
+  int partner = (int)simdrv::knob(*C.spec, "closed_removes_partner", 0);
+  if (partner) for (int d = 1; d < 6; ++d) { Ent* o = C.clientSlot[(e->slot + d) % 6]; if (o && o != e && !o->removed) { if (o->failedIO) probe("partner_removed_while_awaiting_onClosed"); else probe("partner_removed_in_onClosed"); removeEnt(o); if (partner == 1) break; } }
   removeEnt(e);
 }
 static void failHook(int fd, bool isSend, int err) { for (int i = 0; i < C.nent; ++i) if (C.ent[i].kind == K_CLIENT && C.ent[i].fd == fd && !C.ent[i].removed) C.ent[i].failedIO = true; }
@@ -240,6 +244,12 @@ static void execOp(int code, int slot, int64_t arg, Ent* self) {
     break; }
   case C_REMOVE: { Ent* e = C.clientSlot[slot % 6]; if (e) { if (simnet::queued(e->fd) > 0) probe("client_removed_with_pending_data"); removeEnt(e); } break; }
   case C_WRITE: { Ent* e = C.clientSlot[slot % 6]; if (!e) break; static byte buf[2048]; usize n = 1 + (usize)(arg % 2000); usize post = 0; if (((Server::Client*)e->handle)->write(buf, n, &post)) e->accepted += n; else e->failedIO = true; break; }
+  case C_CLOSEFAR: { Ent* e = C.clientSlot[slot % 6]; if (e && e->far && e->far->isOpen()) { e->far->close(); probe("pair_far_end_closed"); } break; }
+  case C_WRITEALL: { /* heartbeat: one callback writes to every client; several of them may fail at once */
+    static byte hb[256]; int failedNow = 0;
+    for (int i = 0; i < 6; ++i) { Ent* e = C.clientSlot[i]; if (!e || e->removed) continue; usize n = 1 + (usize)(arg % 200); usize post = 0; if (((Server::Client*)e->handle)->write(hb, n, &post)) e->accepted += n; else { e->failedIO = true; failedNow++; } }
+    if (failedNow >= 2) probe("several_clients_failed_in_one_callback");
+    break; }
   case C_SUSPEND: { Ent* e = C.clientSlot[slot % 6]; if (e) { ((Server::Client*)e->handle)->suspend(); e->suspended = true; } break; }
   case C_RESUME: { Ent* e = C.clientSlot[slot % 6]; if (e) { e->suspended = false; ((Server::Client*)e->handle)->resume(); } break; }
   case S_INTERRUPT: C.interruptsInvoked++; C.srv->interrupt(); C.interruptsCompleted++; C.lastInterruptDoneSeq = ++C.seq; probe("interrupt_from_callback"); break;
@@ -352,15 +362,19 @@ static void generate(RunSpec& s, int tier) {
   s.knobs["remotes"] = nrem; s.knobs["interrupters"] = nint; static const int caps[] = {16, 256, 4096, 65536}; s.knobs["cap"] = caps[r(4)];
   static const int pct[] = {0, 0, 10, 40}; s.knobs["epoll_fault_pct"] = pct[r(4)]; s.knobs["send_fault_pct"] = pct[r(4)]; s.knobs["conn_fault_pct"] = pct[r(4)]; s.knobs["dns_fault_pct"] = pct[r(4)]; s.knobs["eintr_pct"] = r(3) == 0 ? 5 : 0;
   static const int synck[] = {1, 2, 3, 5}; s.knobs["sync_switch_log2"] = synck[r(4)]; static const int memk[] = {255, 8, 5, 3}; s.knobs["mem_switch_log2"] = memk[r(4)]; s.knobs["nproc"] = 1 + r(4); s.knobs["burst"] = 1 + (r(3) == 0 ? r(4) : 0);
-  int profile = (int)r(4);   // 0 mixed, 1 timer-heavy, 2 connection-heavy, 3 mixed
+  int profile = (int)r(5);   // 0 mixed, 1 timer-heavy, 2 connection-heavy, 3 mixed, 4 close storm (many pairs whose peers close, heartbeat writes, removals from inside onClosed)
+  s.knobs["closed_removes_partner"] = profile == 4 ? r(3) : (r(6) == 0 ? 1 : 0);
   int ns = 6 + (int)r(30);
   for (int i = 0; i < ns; ++i) {
     Op o; o.task = 0; o.a[0] = (int64_t)r(12); o.a[1] = (int64_t)r(100000); o.a[2] = (int64_t)r(1000); o.a[3] = (int64_t)r(8);   // a3: where (0,3.. driver; 1 own callback; 2 any callback)
     uint64_t k = r(100);
     if (profile == 1) o.code = k < 45 ? T_CREATE : k < 80 ? T_REMOVE : k < 90 ? S_WAIT : C_PAIR;
     else if (profile == 2) o.code = k < 14 ? L_LISTEN : k < 20 ? L_REMOVE : k < 34 ? E_ADDR : k < 46 ? E_HOST : k < 54 ? E_REMOVE : k < 62 ? C_PAIR : k < 74 ? C_REMOVE : k < 80 ? C_WRITE : k < 84 ? S_ACCEPTPOLICY : k < 92 ? S_WAIT : S_INTERRUPT;
+    else if (profile == 4) o.code = (i < 3 || k < 30) ? C_PAIR : k < 55 ? C_CLOSEFAR : k < 75 ? C_WRITEALL : k < 82 ? C_REMOVE : k < 88 ? C_WRITE : k < 94 ? S_WAIT : T_CREATE;
     else o.code = k < 14 ? T_CREATE : k < 24 ? T_REMOVE : k < 32 ? L_LISTEN : k < 36 ? L_REMOVE : k < 43 ? E_ADDR : k < 49 ? E_HOST : k < 54 ? E_REMOVE : k < 63 ? C_PAIR : k < 72 ? C_REMOVE : k < 79 ? C_WRITE : k < 83 ? C_SUSPEND : k < 87 ? C_RESUME : k < 91 ? S_INTERRUPT : k < 97 ? S_WAIT : S_ACCEPTPOLICY;
     if (o.code == T_CREATE && r(2)) o.a[1] = r(3);
+    if (profile == 4 && o.code == C_PAIR && r(2)) o.a[1] = 3 + 7 * (int64_t)r(1000);   /* three pairs at once */
+    if (profile != 4 && r(25) == 0) o.code = r(2) ? C_CLOSEFAR : C_WRITEALL;
     if (r(12) == 0) { o.code = S_QUIET; o.a[3] = 0; }   // bias towards small equal intervals: coincident due times
     s.plan.push_back(o);
   }
